@@ -551,10 +551,78 @@ class StmtMixin(BuiltinMixin):
             inner = [w]
         return inner
 
+    def desugar_exit_stack_general(self, items, body, ctx):
+        """`[async] with [Async]ExitStack() as s:` whose body registers exits on `s` at statement level (also inside the
+        branches of an `if`): each registration wraps THE REST of the block, which is what the stack does at run time —
+            s.enter_context(X); REST                 ==  with X: REST
+            await s.enter_async_context(X); REST     ==  async with X: REST
+            s.callback(f, *a); REST                  ==  try: REST  finally: f(*a)
+            s.push_async_callback(f, *a); REST       ==  try: REST  finally: await f(*a)
+        (LIFO order, an exit that raises replaces the pending exception and the outer exits still run: the semantics of
+        nested with / try-finally).  Only used when the contract under verification asks for it (env desugar_exit_stack)."""
+        cur = getattr(self, "cur_contract", None)
+        if cur is None or not cur.env.get("desugar_exit_stack"):
+            return None
+        if len(items) != 1 or not isinstance(items[0].context_expr, ast.Call) or not isinstance(items[0].optional_vars, ast.Name):
+            return None
+        if not ast.unparse(items[0].context_expr.func).endswith("ExitStack") or items[0].context_expr.args:
+            return None
+        name = items[0].optional_vars.id
+
+        def op_of(stmt):
+            if not isinstance(stmt, ast.Expr):
+                return None
+            v = stmt.value
+            if isinstance(v, ast.Await):
+                v = v.value
+            if isinstance(v, ast.Call) and isinstance(v.func, ast.Attribute) and isinstance(v.func.value, ast.Name) and v.func.value.id == name \
+                    and v.func.attr in ("enter_context", "enter_async_context", "callback", "push_async_callback"):
+                return v
+            return None
+
+        def uses_stack(stmts) -> bool:
+            return any(isinstance(n, ast.Name) and n.id == name for st_ in stmts for n in ast.walk(st_))
+
+        def block(stmts):
+            out = []
+            for i, stmt in enumerate(stmts):
+                rest = stmts[i + 1:]
+                v = op_of(stmt)
+                if v is not None:
+                    inner = block(rest) or [ast.Pass()]
+                    if v.func.attr in ("enter_context", "enter_async_context"):
+                        w = (ast.AsyncWith if v.func.attr == "enter_async_context" else ast.With)(
+                            items=[ast.withitem(context_expr=v.args[0], optional_vars=None)], body=inner)
+                    else:
+                        call = ast.Call(func=v.args[0], args=list(v.args[1:]), keywords=list(v.keywords))
+                        fin = ast.Expr(value=ast.Await(value=call) if v.func.attr == "push_async_callback" else call)
+                        w = ast.Try(body=inner, handlers=[], orelse=[], finalbody=[fin])
+                    ast.copy_location(w, stmt)
+                    out.append(w)
+                    break
+                if isinstance(stmt, ast.If) and uses_stack([stmt]):
+                    if uses_stack([stmt.test]):
+                        raise EngineError(f"{ctx.func.key()}:{stmt.lineno}: exit stack used in a condition")
+                    n = ast.If(test=stmt.test, body=block(list(stmt.body) + rest), orelse=block(list(stmt.orelse) + rest) or [ast.Pass()])
+                    ast.copy_location(n, stmt)
+                    out.append(n)
+                    break
+                if uses_stack([stmt]):
+                    raise EngineError(f"{ctx.func.key()}:{stmt.lineno}: unsupported use of the exit stack `{name}`")
+                out.append(stmt)
+            return out
+
+        res = block(list(body))
+        for n in res:
+            ast.fix_missing_locations(n)
+        return res
+
     def exec_with_items(self, items, body, st, ctx, is_async, line):
         if not items:
             return self.exec_block(body, st, ctx)
         ds = self.desugar_exit_stack(items, body)
+        if ds is None:
+            ds = self.desugar_exit_stack_general(items, body, ctx)
         if ds is not None:
             return self.exec_block(ds, st, ctx)
         item, rest = items[0], items[1:]
